@@ -386,13 +386,14 @@ def plan(tier):
         for v in (-1, 0):
             h = IsLcConstructed(n=6, v=v)
             h.parallel = True
-            jobs.append((h, {"time_budget": 5400, "chunk_paths": 32}))
+            h.partial_ok = True
+            jobs.append((h, {"time_budget": 2 * 3600, "chunk_paths": 32}))
     for order in ("graph-first", "tableau-first"):
         jobs.append((LcCheckTableau(n=2, order=order), {}))
         h = LcCheckTableau(n=3, order=order)
         h.parallel = True
-        h.partial_ok = q
-        jobs.append((h, {"time_budget": 45 if q else 3600, "chunk_paths": 8, "chunk_s": 8.0}))
+        h.partial_ok = True
+        jobs.append((h, {"time_budget": 45 if q else 2 * 3600, "chunk_paths": 8, "chunk_s": 8.0}))
     if not q:
         for h in (IsLcEquivalent(n=4, mode="deterministic", with_lc_ops=True), Converter(n=4, api="lc_check")):
             h.parallel = True
